@@ -400,6 +400,69 @@ theorem rpc_output_wrapper_partial (d : Definitions) (bo : BOperation) (po : PtO
 
 example : (splitColon ws!"tns:getHelloAsStringResponse").2 = ws!"getHelloAsString" ++ ws!"Response" := by decide
 
+/-- **rpc_output_wrapper_named_after_message** (what the code does, at full strength — the
+characterisation the coverage predicate of finding C17-rpc-output-wrapper-name replays): every
+Body entry of an rpc output other than `Fault` is named after the output *message* (local part
+of `<output message=…>`), whatever the operation is called, and sits in the namespace of a
+`soap:body namespace=`. So the finding is a matter of the wrapper's NAME only, and only for
+output messages not called `<operation>Response`. -/
+theorem rpc_output_wrapper_named_after_message (d : Definitions) (bo : BOperation) (po : PtOperation) (name : Str)
+    (ns : Option Str) (bm : BMessage) (pm : PtMessage) (r : Option Cls × Cls)
+    (wf : EnvWF d bm (joinU name ws!"output")) (hpm : po.output = some pm)
+    (h : outputOf d bo po name ws!"rpc" ns bm = .ok r) :
+    ∀ a ∈ innerAttrs r.2 ws!"Body", a.name ≠ ws!"Fault" →
+      a.name = (splitColon pm.message).2 ∧
+      ∃ e ∈ bm.ext, titleA (localName e.qname) = ws!"Body" ∧ a.ns = aget e.attrs ws!"namespace" := by
+  unfold outputOf mapMessage at h
+  rw [hpm] at h
+  simp only [bind, Except.bind, pure, Except.pure] at h
+  cases hm : rpcMessageClass d ws!"rpc" pm with
+  | error e => simp [hm] at h
+  | ok mc =>
+    simp only [hm] at h
+    cases he : buildEnvelopeClass d bm pm (joinU name ws!"output") ws!"rpc" ns none with
+    | error e => simp [he] at h
+    | ok env =>
+      simp only [he] at h
+      cases hf : withFault d po true env with
+      | error e => simp [hf] at h
+      | ok env' =>
+        simp only [hf, Except.ok.injEq] at h
+        subst h
+        have hff : buildEnvelopeFault d po env = .ok env' := by simpa [withFault] using hf
+        obtain ⟨_, body, body', fq, fault, h1, h2, h3, _⟩ := buildEnvelopeFault_spec _ _ _ _ hff
+        intro a ha hnf
+        simp only at ha
+        rw [innerAttrs_of_find _ _ _ h2, h3] at ha
+        obtain ⟨b, hb, rfl⟩ := List.mem_map.1 ha
+        rcases List.mem_append.1 hb with hb | hb
+        · rw [← innerAttrs_of_find _ _ _ h1] at hb
+          obtain ⟨hname, _, e, hee, ht, hns⟩ := rpc_body_entries d bm pm _ ns none env wf he b hb
+          exact ⟨by simpa [setMin0_name] using hname, e, hee, ht, by simpa [setMin0] using hns⟩
+        · simp only [List.mem_singleton] at hb
+          subst hb
+          exact absurd rfl hnf
+
+namespace Witness
+def msgR : Message := ⟨ws!"getAResponse", [⟨ws!"return", some ws!"xsd:int", none, [(some ws!"xsd", ws!"http://www.w3.org/2001/XMLSchema")]⟩], [(some ws!"tns", ws!"urn:t")]⟩
+def defsR : Definitions := ⟨some ws!"urn:t", [msgR, hdr], [], [], []⟩
+def pmR : PtMessage := ⟨ws!"tns:getAResponse", [(some ws!"tns", ws!"urn:t")], ws!"l"⟩
+def poR : PtOperation := ⟨ws!"getA", some pmR, some pmR, []⟩
+end Witness
+
+/-- the hypotheses of `rpc_output_wrapper_partial` (and of `…_named_after_message`) hold together on a
+concrete rpc output that follows the convention, and the conclusion is what one expects: the wrapper
+of `getA` with output message `getAResponse` is `getAResponse` -/
+example :
+    (outputOf Witness.defsR (Witness.bo [Witness.body]) Witness.poR ws!"Pt_getA" ws!"rpc" Witness.envNs
+      ⟨[Witness.body], [], ws!"l"⟩).toOption.map (fun r => bodyEntryNames r.2) = some [ws!"getAResponse"] ∧
+    (splitColon Witness.pmR.message).2 = (Witness.bo [Witness.body]).name ++ ws!"Response" ∧
+    Witness.poR.output = some Witness.pmR := by
+  decide +kernel
+
+example : EnvWF Witness.defsR ⟨[Witness.body], [], ws!"l"⟩ (joinU ws!"Pt_getA" ws!"output") :=
+  ⟨by decide, by decide, by decide⟩
+
 /-! ## Faults -/
 
 /-- **fault_shape**: after `build_envelope_fault` the envelope's own attrs keep their
